@@ -62,3 +62,26 @@ Definition c17_static_add (regs : list reg) (name spec : text) (is_url : bool) :
 Definition c17_static_pattern (name : text) : text := c17_add_slash name ++ [42] ++ static_subpath_key.
 Definition c17_static_adds (stmts : list (text * text * bool)) : list reg :=
   fold_left (fun regs s => c17_static_add regs (fst (fst s)) (snd (fst s)) (snd s)) stmts [].
+
+(* ------------------------------------------------------------------ wire: the registrations a sequence of
+   add_static_view statements leaves behind (round 6), everything else as before *)
+Definition c17_put_reg (g : reg) : val :=
+  match g with
+  | RRoute s n => VL [VL []; VT s; VL [VT n]]
+  | RExt s u => VL [VL [VT u]; VT s; VL []]
+  end.
+Definition c17_get_stmts : val -> option (list (text * text * bool)) :=
+  get_list_of (fun v => match v with
+                        | VL [VT n; VT s; VI 0%Z] => Some (n, s, false)
+                        | VL [VT n; VT s; VI 1%Z] => Some (n, s, true)
+                        | _ => None end).
+Definition run_C17x (v : val) : val :=
+  match v with
+  | VL [VI 4%Z; stmts] =>
+      ret_or_bad (match c17_get_stmts stmts with
+                  | Some l => Some (VL [vlist c17_put_reg (c17_static_adds l);
+                                        vlist (fun s : text * text * bool => VT (c17_static_pattern (fst (fst s))))
+                                              (filter (fun s : text * text * bool => negb (snd s)) l)])
+                  | None => None end)
+  | _ => run_C17 v
+  end.
